@@ -12,7 +12,7 @@ def main():
         sys.exit(replay.run(a.arg))
     if a.what == 'selftest':
         from vlib import selftest
-        sys.exit(selftest.run(a.tier))
+        sys.exit(selftest.run(a.tier, [a.arg] if a.arg else None))
     pid = a.what.upper()
     try:
         mod = importlib.import_module(f'props.{pid}')
